@@ -12,6 +12,86 @@ Definition rel_C16 (m o : obs) : bool :=
   zlist_eqb (o_started m) (o_started o) && (o_res m =? o_res o)%Z
   && list_eqb triple_eqb (o_items m) (o_items o).
 
+(* ---- black-box monitor: C16's own clauses, evaluated on the observed history alone (no model) ----
+   - if Dequeue(i) returns nil for an accepted item that has not started, i never starts afterwards and disappears
+     from WorkItems(); every other listed item stays listed (priorities of items with an adjust function may be
+     refreshed: AdjustPriorities runs);
+   - if Dequeue(i) / SetPriority(i, p) returns an error, WorkItems() is unchanged and i is unaffected (it still runs:
+     end clause);
+   - for an executing item both calls return an error; for an unknown or finished id they return nil and change nothing;
+   - SetPriority(i, p) = nil on a waiting item without adjust function lists it with priority p and leaves every other
+     item's priority alone;
+   - no work function starts twice, and when the script has run to completion (its drain finished everything; scripts
+     of this profile have no errors, subscribers, Stop) every accepted item that was not dequeued has started. *)
+Record mst := Mst {
+  m_nenq : Z; m_adjs : list Z; m_started : list Z; m_released : list Z; m_deqnil : list Z;
+  m_prev : list (Z * Z * Z); m_pure : bool }.
+
+Definition norm (adjs : list Z) (l : list (Z * Z * Z)) : list (Z * Z * Z) :=
+  map (fun t => let '(nm, p, s) := t in if zmem nm adjs then (nm, 0%Z, s) else t) l.
+Definition items_eq (adjs : list Z) (a b : list (Z * Z * Z)) : bool :=
+  list_eqb triple_eqb (norm adjs a) (norm adjs b).
+Definition name_of (t : Z * Z * Z) : Z := fst (fst t).
+
+Definition step_ok (m : mst) (st : stim) (o : obs) : bool :=
+  let disjoint := forallb (fun i => negb (zmem i (m_deqnil m))) (o_started o) in
+  let fresh := forallb (fun i => negb (zmem i (m_started m))) (o_started o) && znodup (o_started o) in
+  let known i := (0 <=? i)%Z && (i <? m_nenq m)%Z in
+  let executing i := zmem i (m_started m) && negb (zmem i (m_released m)) in
+  let gone i := negb (known i) || zmem i (m_released m) in
+  let unchanged := items_eq (m_adjs m) (o_items o) (m_prev m) in
+  disjoint && fresh &&
+  match st with
+  | SDequeue i =>
+      if (o_res o =? 2)%Z then false
+      else if executing i then (o_res o =? 1)%Z && unchanged
+      else if gone i then negb (m_pure m) || ((o_res o =? 0)%Z && unchanged)
+      else if (o_res o =? 0)%Z
+           then items_eq (m_adjs m) (o_items o) (filter (fun t => negb (name_of t =? i)%Z) (m_prev m))
+           else unchanged
+  | SSetPrio i p =>
+      if (o_res o =? 2)%Z then false
+      else if executing i then (o_res o =? 1)%Z && unchanged
+      else if gone i then negb (m_pure m) || ((o_res o =? 0)%Z && unchanged)
+      else if (o_res o =? 0)%Z
+           then items_eq (m_adjs m) (o_items o)
+                  (map (fun t => let '(nm, q, s) := t in if (nm =? i)%Z then (nm, p, s) else t) (m_prev m))
+           else unchanged
+  | _ => true
+  end.
+
+Definition step_upd (m : mst) (st : stim) (o : obs) : mst :=
+  let known i := (0 <=? i)%Z && (i <? m_nenq m)%Z in
+  Mst (match st with SEnq _ _ _ => (m_nenq m + 1)%Z | _ => m_nenq m end)
+      (match st with SEnq _ true _ => m_nenq m :: m_adjs m | _ => m_adjs m end)
+      (m_started m ++ o_started o)
+      (match st with SFinish i _ => i :: m_released m | _ => m_released m end)
+      (match st with
+       | SDequeue i => if (o_res o =? 0)%Z && known i && negb (zmem i (m_started m)) then i :: m_deqnil m else m_deqnil m
+       | _ => m_deqnil m
+       end)
+      (o_items o)
+      (m_pure m && match st with
+                   | SFinish _ e => (e <? 0)%Z
+                   | SErrSub | SErrRecv _ | SStop | SBreak => false
+                   | _ => true
+                   end).
+
+Fixpoint mon_steps (m : mst) (sc : list (stim * obs)) : bool * mst :=
+  match sc with
+  | [] => (true, m)
+  | (st, o) :: rest => if step_ok m st o then mon_steps (step_upd m st o) rest else (false, m)
+  end.
+
+(* the script ran to completion: its last observation lists no item IN_PROGRESS and everything started was released *)
+Definition mon_C16 (c : wcase) : bool :=
+  let '(ok, m) := mon_steps (Mst 0 [] [] [] [] [] true) (c_script c) in
+  ok &&
+  (negb (m_pure m)
+   || negb (forallb (fun i => zmem i (m_released m)) (m_started m))      (* not drained: no end clause *)
+   || forallb (fun i => zmem i (m_deqnil m) || zmem i (m_started m))
+        (map Z.of_nat (seq 0 (Z.to_nat (m_nenq m))))).
+
 Definition case := wcase.
-Definition verdict (c : case) : nat := classify rel_C16 c.
+Definition verdict (c : case) : nat := if mon_C16 c then classify rel_C16 c else 1.
 Definition mismatches (cs : list case) : list (nat * nat) := collect verdict 0 cs.
